@@ -277,7 +277,7 @@ func c15RegisterHash(c cfg, life *engineLife, mon *monitor, N int, r *vlib.Rand,
 				idx := gnet.VerifLoopIndex(rr.Conn)
 				loops[idx] = append(loops[idx], what)
 				evals++
-				if cs, ok := rr.Conn.Context().(*connState); ok && cs != nil {
+				if cs := mon.stateOf(rr.Conn); cs != nil {
 					cs.armedLocal.Store(true)
 					cs.armedRemote.Store(true)
 				}
